@@ -137,7 +137,7 @@ func (c *Counts) add(class string) {
 	switch class {
 	case "ok":
 		c.Ok++
-	case "err":
+	case "err", "rejected":
 		c.Err++
 	default:
 		c.Panic++
@@ -494,8 +494,9 @@ blocks:
 
 		// body of the open block so far, kept so that a crash focus can emit the block again
 		type bodyLine struct {
-			tx  *script.Tx   // TX line
-			gov []script.Msg // GOVEXEC line (tx == nil): the messages of one proposal
+			tx   *script.Tx   // TX line
+			gov  []script.Msg // GOVEXEC line (tx == nil): the messages of one proposal
+			vote string       // … and how the validator votes on it ("" = yes)
 		}
 		var body []bodyLine
 		emitBody := func(l bodyLine) error {
@@ -504,7 +505,11 @@ blocks:
 				for i, m := range l.gov {
 					ms[i] = m.String()
 				}
-				if _, err := emit(fmt.Sprintf("GOVEXEC %d %s", g.next(), strings.Join(ms, " ; "))); err != nil {
+				vote := ""
+				if l.vote != "" {
+					vote = "vote=" + l.vote + " "
+				}
+				if _, err := emit(fmt.Sprintf("GOVEXEC %d %s%s", g.next(), vote, strings.Join(ms, " ; "))); err != nil {
 					return err
 				}
 				kind := l.gov[0].Kind
@@ -587,6 +592,9 @@ blocks:
 			for len(govAt) > 0 && govAt[0] == i {
 				govAt = govAt[1:]
 				l := bodyLine{gov: g.proposal(newView(ip.R, ip.R.DeliverCtx()))}
+				if g.chance(12) { // voted down, vetoed (the deposit is burned) or abstained from: nothing of it may run
+					l.vote = g.pick("no", "veto", "abstain")
+				}
 				body = append(body, l)
 				if err := emitBody(l); err != nil {
 					return st, err
@@ -681,5 +689,18 @@ func (g *G) genesis() *script.Genesis {
 	gs.StrFee = g.pick("0", "1", "10000000000000000", "500000000000000000", "1000000000000000000",
 		"25000000000000000", "5000000000000000", "999000000000000000", "123456789012345678") // sub-percent rates too
 	gs.Addrs = real.AddrTable(g.n)
+	// now and then a long (non-key) address holds coins and has granted somebody the right to act for it: the only way
+	// such an account (group policy, interchain account, module-derived address) ever sends a message
+	if g.chance(g.w.longPct * 2) {
+		for _, l := range []string{"L1", "L0"}[:1+g.rng.Intn(2)] {
+			gs.Long = append(gs.Long, [2]string{l, "1000000000000000nund,1000000000btoken"})
+			ge := A(g.rng.Intn(g.n))
+			for _, k := range []string{"str.create", "str.topup", "str.rate", "str.cancel", "bank.send"} {
+				if g.chance(80) {
+					gs.Grants = append(gs.Grants, [3]string{l, ge, k})
+				}
+			}
+		}
+	}
 	return gs
 }
